@@ -122,6 +122,17 @@ pub fn c10(ctx: &mut Ctx) {
             sdes_case(&buf, l);
         });
     }
+    // single chunks with more than 65 535 bytes of items (where a 16-bit sum of item lengths wraps)
+    {
+        let sp = bytes::giants_runs_space();
+        let get = &sp.get;
+        ctx.bound("giant chunks", "6 SDES packets whose single chunk holds 258..33000 items and more than 65535 bytes (the header-only runs of the same space are outside the domain and skipped)");
+        ctx.run_space(&sp.name, sp.len, |idx, l| {
+            let mut buf = Vec::new();
+            get(idx, &mut buf);
+            sdes_case(&buf, l);
+        });
+    }
     for sp in gens::sdes_spaces(ctx.tier, ctx.seed) {
         let get = &sp.get;
         ctx.run_space(&format!("wellformed:{}", sp.name), sp.len, |idx, l| {
